@@ -110,6 +110,7 @@ pub fn probes() -> Vec<(Program, Vec<Vec<Val>>)> {
     // function used to panic in DebugReplacer::enrich_function_names)
     let lp = Expr::Loop(
         8,
+        Ty::Bool,
         Box::new(Expr::Block(
             vec![
                 Stmt::Expr(Expr::If(
@@ -332,7 +333,7 @@ fn write_shards(out: &Path, runs: &[CrateRun]) -> usize {
                 }
             }
             writeln!(s, "Definition cases : list case := [\n  {}\n].", cases.join(";\n  ")).unwrap();
-            s.push_str("Definition bad := Eval vm_compute in check_run cases.\nPrint bad.\n");
+            s.push_str("Definition ill := Eval vm_compute in illtyped cases.\nPrint ill.\nDefinition bad := Eval vm_compute in check_run cases.\nPrint bad.\n");
             std::fs::write(out.join(format!("c01_{:02}_{:03}.v", r.idx, n_shards)), s).unwrap();
             n_shards += 1;
         }
